@@ -17,6 +17,8 @@ import (
 
 	"github.com/ipfs/go-cid"
 	"github.com/ipld/go-ipld-prime/datamodel"
+	cidlink "github.com/ipld/go-ipld-prime/linking/cid"
+	"github.com/ipld/go-ipld-prime/node/basicnode"
 	"github.com/libp2p/go-libp2p/core/crypto"
 	"github.com/multiformats/go-multihash"
 
@@ -237,7 +239,21 @@ func concreteArgs(p int) *args.Args {
 	_ = a.Add("f", float64(p)+0.5)
 	_ = a.Add("big", int64(1)<<53-1)
 	_ = a.Add("e", []int{})
+	_ = a.Add("r", "aa"+strconv.Itoa(p)) // a repeated letter: the literal after a star starts, fails, and starts again inside what was read
+	_ = a.Add("k", basicnode.NewLink(linkFor("c1")))
 	return a
+}
+
+func init() {
+	// statements about a link: the very link, and OTHER links over the same digest (dag-cbor codec, CIDv0)
+	lk := func(id string) string {
+		return `{"/": "` + linkFor(id).(cidlink.Link).Cid.String() + `"}`
+	}
+	policyCatalogue["[0 1 2]"] = append(policyCatalogue["[0 1 2]"], `["==", ".k", `+lk("c1")+`]`, `["not", ["==", ".k", `+lk("c1v")+`]]`, `["like", ".r", "*a*"]`, `["like", ".r", "a*a*"]`)
+	policyCatalogue["[]"] = append(policyCatalogue["[]"], `["==", ".k", `+lk("c1v")+`]`, `["==", ".k", `+lk("c1z")+`]`, `["==", ".k", `+lk("c2")+`]`, `["like", ".r", "*aaa*"]`)
+	policyCatalogue["[0]"] = append(policyCatalogue["[0]"], `["like", ".r", "*a0"]`)
+	policyCatalogue["[1]"] = append(policyCatalogue["[1]"], `["like", ".r", "a*a1"]`, `["like", ".r", "*a1"]`)
+	policyCatalogue["[2]"] = append(policyCatalogue["[2]"], `["like", ".r", "*aa2"]`)
 }
 
 // catalogueSelfCheck evaluates every catalogue statement on every argument point with the real
@@ -613,6 +629,15 @@ func chainReplay(prop string) replayFn {
 			ws[r] = newWorld(envSeed()+int64(r), fastAlgs)
 			ws[r].render = r
 		}
+		// one world has RSA principals where chains start and pass through (their DIDs are built from keys on one side
+		// and decoded from sealed tokens on the other)
+		ws[3].algs = []string{"rsa"}
+		for _, n := range []string{"A", "S"} {
+			if _, err := ws[3].principal(n); err != nil {
+				return err
+			}
+		}
+		ws[3].algs = fastAlgs
 		if bad := catalogueSelfCheck(); len(bad) > 0 && (prop == "C03" || prop == "C05") {
 			for _, b := range bad {
 				rep.violation(map[string]any{"catalogue": b}, "catalogue statement has its stated acceptance set", b,
@@ -1209,6 +1234,13 @@ func stmtFromJSON(x any) (stmt, error) {
 			return []any{"bool", t}, nil
 		case nil:
 			return []any{"null"}, nil
+		case map[string]any:
+			// a DAG-JSON link {"/": "<cid>"}: the specification knows links by name
+			if c, ok := t["/"].(string); ok && len(t) == 1 {
+				if name, ok := linkNames[c]; ok {
+					return []any{"link", name}, nil
+				}
+			}
 		}
 		return nil, fmt.Errorf("unsupported literal %v", v)
 	}
